@@ -18,6 +18,14 @@ type Spec struct {
 	// SkipDepositChecks models zrnt's KickStartState ("ignore signatures and proofs"): every deposit
 	// signature counts as valid and Merkle proofs are not checked. Never set for spec-conformance runs.
 	SkipDepositChecks bool
+	// Observe, when set, is told which branches of the specification executed (coverage evidence only, e.g. "finalize-rule-3").
+	Observe func(event string)
+}
+
+func (sp *Spec) observe(event string) {
+	if sp.Observe != nil {
+		sp.Observe(event)
+	}
 }
 
 func NewSpec(p *P) *Spec { return &Spec{P: p, S: NewSchemas(p)} }
